@@ -34,9 +34,11 @@ func (p uriParts) String() string { return p.Scheme + ":" + p.Host + p.Port + p.
 
 var (
 	c17Schemes = []string{"stun", "stuns", "turn", "turns", "http", "stunx", "STUN", "Turns"}
-	c17Hosts   = []string{"example.org", "a", "a.b-c.d", "1.2.3.4", "[::1]", "[fe80::1%25eth0]", "[2001:db8::ff]", "", "[h]", "xn--bcher-kva.example"}
+	c17Hosts   = []string{"example.org", "a", "a.b-c.d", "1.2.3.4", "[::1]", "[fe80::1%25eth0]", "[2001:db8::ff]", "", "[h]", "xn--bcher-kva.example",
+		"[2001:DB8::1]", "[0:0:0:0:0:0:0:1]", "[::ffff:192.0.2.1]", "[2001:0db8::0001]", "EXAMPLE.org", "010.1.2.3"}
 	c17Ports   = []string{"", ":", ":0", ":1", ":3478", ":5349", ":65535", ":65536", ":99999", ":-1", ":+5", ":12a", ":99999999999999999999", ":0080", ":0100", ":09", ":4294967297", ":0x50", ":3_478", ":0b11", ":0o17", ":1e3", ": 80"}
-	c17Queries = []string{"", "?", "?transport=udp", "?transport=tcp", "?transport=UDP", "?transport=sctp", "?transport=", "?transport=udp&x=1", "?x=1", "?transport=udp&transport=tcp", "?transport=tcp&transport=udp", "?transport", "?Transport=udp", "?transport=udp&", "?x=1&y=2"}
+	c17Queries = []string{"", "?", "?transport=udp", "?transport=tcp", "?transport=UDP", "?transport=sctp", "?transport=", "?transport=udp&x=1", "?x=1", "?transport=udp&transport=tcp", "?transport=tcp&transport=udp", "?transport", "?Transport=udp", "?transport=udp&", "?x=1&y=2",
+		"?%zz", "?transport=tcp;x=1", "?transport=tcp&%zz=1", "?foo=1;bar=2", "?transport=udp%", "?%"}
 )
 
 // c17Oracle derives the expectation from the generated components (it never
@@ -128,6 +130,8 @@ func c17Oracle(p uriParts) c17Expect {
 			return c17Expect{MustReject: true, Why: "stun/stuns with a query"}
 		}
 		return c17Expect{MustReject: true, Why: "unknown transport"}
+	case "?%zz", "?transport=tcp;x=1", "?transport=tcp&%zz=1", "?foo=1;bar=2", "?transport=udp%", "?%":
+		return c17Expect{MustReject: true, Why: "malformed query"}
 	case "?transport=udp&x=1", "?x=1", "?x=1&y=2", "?Transport=udp":
 		if isStun {
 			return c17Expect{MustReject: true, Why: "stun/stuns with a query"}
